@@ -958,6 +958,59 @@ func (f *Format) EndlessFragments(ctx *hx.Ctx, name string, count int, gen func(
 	runtime.KeepAlive(d)
 }
 
+// HostileStream feeds a grammar-aware packet stream (gen may return packets of any shape: several complete large units under
+// one timestamp, units near a cap, ...) and judges, after EVERY packet that returns a frame and every 32nd packet otherwise,
+// the retained bytes / slice headers (peak, not only the final value) and the size of every returned frame.
+func (f *Format) HostileStream(ctx *hx.Ctx, name string, count int, gen func(i int, seq uint16) *rtp.Packet, limitSlices, limitBytes, limitOut int) {
+	d, err := f.NewDecoder(0)
+	if err != nil {
+		return
+	}
+	seq := uint16(64000)
+	peakB, peakS, maxOut, frames := 0, 0, 0, 0
+	failedB, failedS, failedO := false, false, false
+	for i := 0; i < count; i++ {
+		p := gen(i, seq)
+		seq++
+		fr, res, pmsg := safeDecode(d, p)
+		if res == ResPanic {
+			ctx.Failf(-1, f.classify("dec-panic", pmsg, nil), name, "%s panicked in hostile stream %s: %s", f.Name, name, pmsg)
+			return
+		}
+		if res == ResFrame {
+			frames++
+			if n := frameBytes(fr); n > maxOut {
+				maxOut = n
+			}
+			if limitOut > 0 && frameBytes(fr) > limitOut && !failedO {
+				failedO = true
+				ctx.Failf(-1, f.classify("output-too-large", name, nil), name, "%s: hostile stream %s: packet %d returned a frame of %d bytes (bound %d)", f.Name, name, i, frameBytes(fr), limitOut)
+			}
+		}
+		if res == ResFrame || i%32 == 31 || i == count-1 {
+			b, s := Retained(d.Raw())
+			if b > peakB {
+				peakB = b
+			}
+			if s > peakS {
+				peakS = s
+			}
+			if limitBytes > 0 && b > limitBytes && !failedB {
+				failedB = true
+				ctx.Failf(-1, f.classify("retained-bytes", name, nil), name, "%s: hostile stream %s: after packet %d the decoder retains %d bytes (bound %d)", f.Name, name, i, b, limitBytes)
+			}
+			if limitSlices > 0 && s > limitSlices && !failedS {
+				failedS = true
+				ctx.Failf(-1, f.classify("retained-slices", name, nil), name, "%s: hostile stream %s: after packet %d the decoder retains %d slice headers (bound %d)", f.Name, name, i, s, limitSlices)
+			}
+		}
+	}
+	ctx.Eval()
+	ctx.Nontrivial(f.Name + " " + name)
+	ctx.Extra(f.Name+" "+name, map[string]any{"packets": count, "peak_retained_bytes": peakB, "peak_retained_slices": peakS, "frames": frames, "largest_frame": maxOut})
+	runtime.KeepAlive(d)
+}
+
 // Run dispatches on the property.
 func (f *Format) Run(ctx *hx.Ctx) {
 	ctx.Rule("per format: configurations sampled over all parameter sets, payload limits from the smallest workable value through 1450/1472 to 9000, initial sequence numbers incl. wrap; frames from the format's valid-frame generator centred on every aggregation/fragmentation threshold (+-8); non-trivial = distinct (format, parameters, limit, unit sizes[, fault pattern])")
